@@ -64,6 +64,14 @@ def models(name):
                               H1=sympy.Matrix([[0, a + Dagger(a), a], [a + Dagger(a), 0, Dagger(a) + a], [Dagger(a), a + Dagger(a), a + Dagger(a)]]), blocks=[0, 1, 1]),
         "matrix_3x3_21": dict(modes=[a], H0=sympy.Matrix([[w * Na, 0, 0], [0, w * Na + D, 0], [0, 0, w * Na + al]]),
                               H1=sympy.Matrix([[0, a + Dagger(a), a], [a + Dagger(a), 0, Dagger(a) + a], [Dagger(a), a + Dagger(a), a + Dagger(a)]]), blocks=[0, 0, 1]),
+        # an exactly vanishing diagonal block of H_0 (gapped against the other block), first and last
+        "matrix_zero_block_first": dict(modes=[a], H0=sympy.Matrix([[0, 0], [0, D + al * Na]]), H1=sympy.Matrix([[0, a], [Dagger(a), a + Dagger(a)]]), blocks=[0, 1]),
+        "matrix_zero_block_last": dict(modes=[a], H0=sympy.Matrix([[D + al * Na, 0, 0], [0, D + w * Na, 0], [0, 0, 0]]),
+                                       H1=sympy.Matrix([[0, 1, Dagger(a)], [1, 0, a + Dagger(a)], [a, a + Dagger(a), 0]]), blocks=[0, 0, 1]),
+        # non-Hermitian operator Hamiltonians (hermitian=False): U_inv U = 1 and U_inv H U = H_tilde, fully diagonalised blocks only
+        "nonhermitian_drive": dict(modes=[a], H0=w * Na + al * Na * Na, H1=a / 2 + 3 * Dagger(a) / 2 + a * a, nonhermitian=True),
+        "nonhermitian_jc": dict(modes=[a], H0=sympy.Matrix([[w * Na, 0], [0, w * Na + D]]), H1=sympy.Matrix([[0, 2 * a], [Dagger(a), a]]), nonhermitian=True),
+        "nonhermitian_fermions": dict(modes=[c, d], H0=ec * Dagger(c) * c + ed * Dagger(d) * d, H1=2 * Dagger(c) * d + Dagger(d) * c + 3 * c * d, nonhermitian=True),
         "matrix_1block": dict(modes=[a], H0=sympy.Matrix([[w * Na, 0], [0, w * Na + D]]), H1=sympy.Matrix([[0, a], [Dagger(a), a + Dagger(a)]])),
     }
     if name.startswith(("random:", "randomfree:")):
@@ -131,6 +139,8 @@ def _run_library(m, max_order):
         kw["subspace_indices"] = m["blocks"]
     if m.get("fd") is not None:
         kw["fully_diagonalize"] = {0: m["fd"]} if m.get("blocks") is not None else m["fd"]
+    if m.get("nonhermitian"):
+        kw["hermitian"] = False
     Ht, U, Ud = block_diagonalize({sympy.S.One: H0, g: H1}, symbols=[g], **kw)
     return Ht, U, Ud
 
@@ -275,6 +285,14 @@ def c07(cfg):
                         Uadj[r][c_] = 0 if x == 0 else Dagger(_expr_of(x))
                 ua = OM.apply(Uadj, basis)
                 ud = OM.apply(lib["Ud"][n], basis)
+                if m.get("nonhermitian"):
+                    # similarity transform: U_inv is not the adjoint, and the gauge is on U - U_inv; only inverse, conjugation and elimination
+                    if n >= 1:
+                        for r in range(N):
+                            for s_, cf in ht[r].items():
+                                if not kept_shift_ok(r, col, s_):
+                                    addc(f"Ht eliminated components order={n}", cf.nonzero_clauses())
+                    continue
                 for r in range(N):
                     addc(f"Ud==adjoint(U) order={n}", F.diff_clauses(ua[r], ud[r]))
                 # elimination / gauge: H_tilde has only kept components, the anti-Hermitian part of U only eliminated ones
@@ -430,6 +448,8 @@ def _matrix_comparison(m, modes, lib, N, layout, max_order, seed):
 
     with warnings.catch_warnings():
         warnings.simplefilter("ignore")
+        if m.get("nonhermitian"):
+            kw = dict(kw, hermitian=False)
         Ht, U, Ud = block_diagonalize([np.diag(ev), H1n], subspace_indices=idx, **kw)
         nb = int(idx.max()) + 1
 
@@ -471,14 +491,16 @@ def configs(tier):
              ("spin_fermion", 3), ("spin_two_fermions", 2), ("boson_ladder", 2), ("floquet_2x2", 2),
              ("two_spins", 3), ("jc_mask_counter_rotating", 2), ("two_bosons_mask", 2),
              ("boson_complex_drive", 2), ("fermion_complex_hop", 3), ("rabi_y", 2), ("matrix_complex", 2), ("spin_boson_fermion", 2),
-             ("matrix_3x3_12", 2), ("matrix_3x3_21", 2)]
+             ("matrix_3x3_12", 2), ("matrix_3x3_21", 2), ("matrix_zero_block_first", 2), ("matrix_zero_block_last", 2),
+             ("nonhermitian_drive", 2), ("nonhermitian_jc", 2), ("nonhermitian_fermions", 2)]
     thorough = [("anharmonic3", 4), ("anharmonic4", 3), ("displaced", 4), ("kerr_drive", 3), ("two_bosons", 3), ("rabi", 4), ("jc_detuned", 3),
                 ("fermion_hop2", 4), ("fermion_pair3", 3), ("fermion_interaction", 3), ("holstein", 3), ("ladder_drive", 3),
                 ("mask_two_photon", 3), ("mask_one_photon", 2), ("matrix_2x2", 3), ("matrix_1block", 3),
                 ("spin_fermion", 4), ("spin_two_fermions", 3), ("boson_ladder", 3), ("floquet_2x2", 3),
                 ("two_spins", 4), ("jc_mask_counter_rotating", 3), ("two_bosons_mask", 3),
                 ("boson_complex_drive", 2), ("boson_complex_harmonic", 3), ("fermion_complex_hop", 4), ("rabi_y", 3), ("matrix_complex", 3), ("spin_boson_fermion", 2),  # three modes of mixed statistics: order 3 exceeds 1500 s (probe)
-                ("matrix_3x3_12", 3), ("matrix_3x3_21", 3)]
+                ("matrix_3x3_12", 3), ("matrix_3x3_21", 3), ("matrix_zero_block_first", 3), ("matrix_zero_block_last", 2),
+                ("nonhermitian_drive", 3), ("nonhermitian_jc", 3), ("nonhermitian_fermions", 3)]
     for name, mo in quick if tier == "quick" else thorough:
         cfgs.append(dict(model=name, max_order=mo, _timeout_s=300 if tier == "quick" else 1500))
     # seeded random polynomial models (fixed seeds per tier: the encoding is regenerated, the set is stated)
@@ -523,6 +545,11 @@ def c16_2nd_quant(cfg):
                                    Y={(0, 1): [[y[0] * a + y[1] * Dagger(a) + y[2], y[3] * a + y[4] * Dagger(a) * Na + y[5]]],
                                       (1, 0): [[y[0] * Dagger(a) + y[1] * a + y[2]], [y[3] * Dagger(a) + y[4] * Na * a + y[5]]],
                                       (1, 1): [[y[0] * (a + Dagger(a)), y[1] * a + y[2]], [y[1] * Dagger(a) + y[2], y[3] * (a**2 + Dagger(a) ** 2)]]})
+    # right-hand sides that are NOT Hermitian on a diagonal block (what the non-Hermitian algorithm hands to the solver)
+    sets["boson_nonhermitian_rhs"] = dict(modes=[a], eigs=[[w * Na + al * Na**2]], nonhermitian=True,
+                                          Y={(0, 0): [[y[0] * a + y[1] * Dagger(a) + y[2] * a**2 + y[3] * Dagger(a) * Na]]})
+    sets["boson_2x2_nonhermitian_rhs"] = dict(modes=[a], eigs=[[w * Na, w * Na + D]], nonhermitian=True,
+                                              Y={(0, 0): [[y[0] * a + y[1] * Dagger(a), y[2] * a + y[3]], [y[4] * Dagger(a) + y[5] * a + y[6], y[7] * a**2]]})
     from pymablock.number_ordered_form import LadderOp
 
     l = LadderOp("l")
@@ -535,7 +562,12 @@ def c16_2nd_quant(cfg):
                                 Y={(0, 0): [[y[0] * (sp * c + Dagger(c) * sm) + y[1] * (sm * c + Dagger(c) * sp) + y[2] * (c + Dagger(c))]]})
     m = sets[cfg["set"]]
     modes = m["modes"]
-    solve = solve_sylvester_2nd_quant(tuple(m["eigs"]))
+    import inspect
+
+    if m.get("nonhermitian") and "hermitian" in inspect.signature(solve_sylvester_2nd_quant).parameters:
+        solve = solve_sylvester_2nd_quant(tuple(m["eigs"]), hermitian=False)
+    else:
+        solve = solve_sylvester_2nd_quant(tuple(m["eigs"]))
     sig = f"2nd_quant:{cfg['set']}"
     clauses = {}
     for (i, j), Y in m["Y"].items():
